@@ -195,6 +195,20 @@ impl<const N: usize> Events<N> {
     pub fn verif_next_event_number(&self) -> EventNumber {
         self.inner.lock(|state| state.borrow().next_event_number)
     }
+
+    /// Empty the queue and restart the event numbering.
+    pub fn verif_reset(&self) {
+        self.inner.lock(|state| state.borrow_mut().reset())
+    }
+
+    /// Visit the queued events in the order `fetch` iterates them: event number and priority.
+    pub fn verif_visit(&self, mut f: impl FnMut(EventNumber, u8)) {
+        self.fetch(|events| {
+            for event in events {
+                f(event.event_number, event.priority as u8);
+            }
+        })
+    }
 }
 
 impl<const N: usize> Default for Events<N> {
